@@ -716,60 +716,94 @@ func nameTaint(v ssa.Value, fn *ssa.Function, depth int) (tainted bool, resolved
 	return true, false
 }
 
+// nameTaintS is nameTaint with helper parameters resolved to the arguments of the call chain.
+func nameTaintS(v ssa.Value, sub Subst, depth int) (tainted bool, resolved bool) {
+	if depth > 10 {
+		return true, false
+	}
+	switch x := v.(type) {
+	case *ssa.Parameter:
+		if r := sub.Res(x); r != ssa.Value(x) {
+			return nameTaintS(r, sub, depth+1)
+		}
+		return true, false
+	case *ssa.Const:
+		return false, false
+	case *ssa.MakeInterface:
+		return nameTaintS(x.X, sub, depth+1)
+	case *ssa.Phi:
+		t, r := false, true
+		for _, e := range x.Edges {
+			t2, r2 := nameTaintS(e, sub, depth+1)
+			t = t || t2
+			r = r && r2
+		}
+		return t, r
+	case *ssa.BinOp:
+		t1, r1 := nameTaintS(x.X, sub, depth+1)
+		t2, r2 := nameTaintS(x.Y, sub, depth+1)
+		return t1 || t2, r1 || r2
+	case *ssa.Call:
+		if x.Call.IsInvoke() && x.Call.Method.Name() == "Name" && (namedIs(x.Call.Value.Type(), pkgWTypes, "Wallet") || namedIs(x.Call.Value.Type(), pkgWTypes, "Account")) {
+			return false, true
+		}
+		if f := x.Call.StaticCallee(); f != nil && f.String() == "fmt.Sprintf" {
+			t, r := false, false
+			for _, a := range varargValues(x.Call.Args[1]) {
+				t2, r2 := nameTaintS(a, sub, depth+1)
+				t = t || t2
+				r = r || r2
+			}
+			return t, r
+		}
+		return true, false
+	}
+	return true, false
+}
+
 // ResolvedName: C07.O4 - the name given to the permission check is built from the resolved wallet/account objects.
 func (c *Ctx) ResolvedName(prop string) {
 	rule := "C07.O4 resolved-name"
 	auth := c.authHelpers()
 	createG := c.Global(rule, pkgRuler, "ActionCreateAccount")
 	n := 0
-	// call sites of helpers that take the name as a parameter and pass it to Check unchanged
+	_ = auth
+	// every invoke of the permission check in the services: the account name it is given, resolved through the helper
+	// parameters of every static call chain that leads to it
 	for _, fn := range c.P.ModuleFuncs() {
 		if prog.IsTestish(prog.PkgPathOf(fn)) || !strings.HasPrefix(prog.PkgPathOf(fn), mod+"/services/") {
 			continue
 		}
-		for _, ci := range Calls(fn, func(ci ssa.CallInstruction) bool {
-			cal := ci.Common().StaticCallee()
-			if cal == nil || !auth[cal] {
-				return false
-			}
-			// helper that directly invokes Check
-			return len(invokesIface(cal, pkgChecker, "Service", "Check")) > 0
-		}) {
-			cal := ci.Common().StaticCallee()
-			chk := invokesIface(cal, pkgChecker, "Service", "Check")[0]
-			// which parameter of the helper is the account name given to Check (arg index 2 of Check: ctx, creds, account, op)
-			nameArg := chk.Common().Args[2]
-			pi := -1
-			for i, p := range cal.Params {
-				if ssa.Value(p) == nameArg {
-					pi = i
+		for _, chk := range invokesIface(fn, pkgChecker, "Service", "Check") {
+			nameArg, opArg := chk.Common().Args[2], chk.Common().Args[3]
+			for _, ch := range c.Chains(fn, chk.(ssa.Instruction), nil, 3) {
+				sub := ch[len(ch)-1].Sub
+				_, isParam := nameArg.(*ssa.Parameter)
+				if isParam && len(ch) == 1 && len(c.staticCallers()[fn]) == 0 && fn.Parent() == nil {
+					// an exported entry that checks the name it was given (e.g. the checker's own users pass resolved names): judged at its callers
 				}
-			}
-			if pi < 0 {
-				continue
-			}
-			n++
-			arg := ci.Common().Args[pi]
-			tainted, resolved := nameTaint(arg, fn, 0)
-			isCreate := false
-			for _, a := range ci.Common().Args {
-				if createG != nil && isLoadOfGlobal(a, createG) {
-					isCreate = true
+				n++
+				where := ch[0].Fn
+				tainted, resolved := nameTaintS(nameArg, sub, 0)
+				isCreate := createG != nil && isLoadOfGlobal(sub.Res(opArg), createG)
+				key := Fn(where)
+				if where != fn {
+					key = Fn(where) + " via " + Fn(fn)
 				}
-			}
-			switch {
-			case isCreate:
-				c.R.OK(rule, Fn(fn)+":create", c.Pos(ci), "create checks the requested name (the account does not exist yet) - table entry")
-			case tainted:
-				c.R.Fail(rule, Fn(fn), c.Pos(ci), "the permission check is applied to a name taken from the request ("+an.Term(arg)+") instead of the names of the wallet/account that were actually resolved; a request addressed by public key or by an alias is judged under the wrong name", "Check(wallet.Name() + \"/\" + account.Name()) of the resolved objects", nil)
-			case !resolved:
-				c.R.Unknown(rule, Fn(fn), c.Pos(ci), "cannot establish where the checked name comes from: "+an.Term(arg))
-			default:
-				c.R.OK(rule, Fn(fn), c.Pos(ci), "checked name is built from Name() of the resolved wallet/account")
+				switch {
+				case isCreate:
+					c.R.OK(rule, key+":create", c.Pos(chk), "create checks the requested name (the account does not exist yet) - table entry")
+				case tainted:
+					c.R.Fail(rule, Fn(fn), c.Pos(chk), "the permission check is applied to a name taken from the request ("+an.Term(sub.Res(nameArg))+") instead of the names of the wallet/account that were actually resolved; a request addressed by public key or by an alias is judged under the wrong name", "Check(wallet.Name() + \"/\" + account.Name()) of the resolved objects", nil)
+				case !resolved:
+					c.R.Unknown(rule, key, c.Pos(chk), "cannot establish where the checked name comes from: "+an.Term(sub.Res(nameArg)))
+				default:
+					c.R.OK(rule, key, c.Pos(chk), "checked name is built from Name() of the resolved wallet/account")
+				}
 			}
 		}
 	}
-	c.R.Floor(rule, "call sites of permission helpers", n, 6)
+	c.R.Floor(rule, "permission checks (per call chain)", n, 6)
 }
 
 func init() {
